@@ -152,7 +152,7 @@ def key_values_are_never_folded(repo, rep):
                             'key values' % n)
 
 
-def _case_folds_exactly_for_canonical(case):
+def _case_folds_exactly_for_canonical(case, outer=None):
     """every return path of the nested case() helper returns the folded
     parameter when format == 'canonical' holds and the parameter itself
     otherwise (whatever statement form is used)"""
@@ -179,6 +179,16 @@ def _case_folds_exactly_for_canonical(case):
             continue
         canon = None
         for t, pol in facts:
+            if isinstance(t, ast.Name) and outer is not None and \
+                    t.id not in case.params:
+                # a flag computed once in the enclosing function
+                defs = [a.value for a in walk_no_nested(outer.node)
+                        if isinstance(a, ast.Assign) and
+                        len(a.targets) == 1 and
+                        isinstance(a.targets[0], ast.Name) and
+                        a.targets[0].id == t.id]
+                if len(defs) == 1:
+                    t = defs[0]
             if eqsrc(t, "format == 'canonical'"):
                 canon = pol
             elif eqsrc(t, "format != 'canonical'"):
@@ -305,6 +315,7 @@ def run(repo, rep, tier):
     r2.functions.add(tw.fq)
     facts = stmt_facts(tw.node)
     str_chain = None
+    chain_stmt = None
     nested = {x.name: x for x in ast.walk(tw.node)
               if isinstance(x, ast.FunctionDef) and x is not tw.node}
 
@@ -344,6 +355,7 @@ def run(repo, rep, tier):
         ch = chain_on(n, 'value')
         if ch:
             str_chain = ch
+            chain_stmt = n
     if str_chain is None:
         raise AnalysisError('to_wbem_uri: escape chain for str values not '
                             'found')
@@ -364,18 +376,67 @@ def run(repo, rep, tier):
     if not (ip and kp and cp):
         raise AnalysisError('WBEM URI patterns not resolvable')
     ipc, kpc, cpc = (re.compile(p, f) for p, f in (ip, kp, cp))
-    for ch in REP_CHARS:
+    # the quote characters the escaped text is wrapped in: the constant
+    # text appended just before / after it (a conditional expression or a
+    # local holding one gives several)
+    from ..flow import value_of as _vo
+    delims = set()
+
+    def consts_of(e):
+        e = _vo(tw, e)
+        if isinstance(e, ast.Constant) and isinstance(e.value, str):
+            return {e.value}
+        if isinstance(e, ast.IfExp):
+            a, b = consts_of(e.body), consts_of(e.orelse)
+            return (a | b) if a and b else set()
+        return set()
+
+    def block_of(stmts):
+        for i, st in enumerate(stmts):
+            if st is chain_stmt:
+                return stmts, i
+            for fld in ('body', 'orelse', 'finalbody'):
+                sub = getattr(st, fld, None)
+                if isinstance(sub, list) and sub and \
+                        isinstance(sub[0], ast.stmt):
+                    r_ = block_of(sub)
+                    if r_:
+                        return r_
+        return None
+    loc = block_of(tw.node.body)
+    if loc:
+        blk, i = loc
+        for nb in (blk[i - 1] if i > 0 else None,
+                   blk[i + 1] if i + 1 < len(blk) else None):
+            if isinstance(nb, ast.Expr) and isinstance(nb.value, ast.Call) \
+                    and isinstance(nb.value.func, ast.Attribute) and \
+                    nb.value.func.attr == 'append' and nb.value.args:
+                delims |= {c for c in consts_of(nb.value.args[0])
+                           if len(c) == 1}
+    if not delims:
+        delims = {'"'}
+        r2.notes.append('quote characters around the escaped key text not '
+                        'evident; judged for the double quote')
+    for dl, ch in [(d, c) for d in sorted(delims) for c in REP_CHARS]:
         for val in (ch, 'x' + ch + 'y'):
             r2.sites += 1
-            uri = '/ns:Cls.k="%s"' % apply_chain(str_chain, val)
+            uri = '/ns:Cls.k=%s%s%s' % (dl, apply_chain(str_chain, val), dl)
             m = ipc.match(uri)
             ok = bool(m) and bool(kpc.match(m.group(5)))
             if ok:
                 # and the value scanned back is the value
-                mm = re.match(r'^k="(.*)"$', m.group(5), re.S)
+                mm = re.match(r'^k=%s(.*)%s$' % (re.escape(dl),
+                                                  re.escape(dl)),
+                              m.group(5), re.S)
                 ok = bool(mm) and re.sub(r'\\(.)', r'\1', mm.group(1),
                                          flags=re.S) == val
-            r2.ob(ok, 'char:%r' % val, {'key_value': val, 'printed': uri,
+                # the quoted token must end where the printer ended it: an
+                # unescaped delimiter inside cuts the value short
+                tok = re.match(r'k=(%s(?:[^%s\\]|\\.)*%s)' % (
+                    re.escape(dl), re.escape(dl), re.escape(dl)),
+                    m.group(5), re.S)
+                ok = ok and bool(tok) and tok.end() == len(m.group(5))
+            r2.ob(ok, 'char:%s%r' % (dl, val), {'key_value': val, 'printed': uri,
                                         'accepted_by_parser_patterns': ok})
             if not ok:
                 rep.finding(r2, tw.qualname, 'string key containing %r'
@@ -385,16 +446,20 @@ def run(repo, rep, tier):
                             'INSTANCEPATH_REGEXP / WBEM_URI_KEYBINDINGS_'
                             'REGEXP) do not accept' % (uri, val))
     for host in ('server', 'server:5989', '[::1]', '[fe80::1]:5989',
-                 'user@server', '10.1.2.3'):
+                 'user@server', '10.1.2.3', 'my-host.example.com',
+                 'my-host.example.com:5989'):
         r2.sites += 1
         uri = '//%s/root/cimv2:Cls' % host
         ok = bool(cpc.match(uri)) and cpc.match(uri).group(2) == host
+        mi = ipc.match(uri + '.k=1')
+        ok = ok and bool(mi) and mi.group(2) == host
         r2.ob(ok, 'host:' + host, {'host': host, 'accepted': ok})
         if not ok:
             rep.finding(r2, 'CIMClassName.to_wbem_uri', 'host %r' % host,
                         'host-not-accepted', OBJ, tw.node.lineno,
                         'host form %r is printed but not accepted by '
-                        'WBEM_URI_CLASSPATH_REGEXP' % host)
+                        'WBEM_URI_CLASSPATH_REGEXP / WBEM_URI_INSTANCEPATH_'
+                        'REGEXP' % host)
     for ns in ('root', 'root/cimv2', 'a/b/c', 'root/PG_InterOp'):
         r2.sites += 1
         uri = '/%s:Cls' % ns
@@ -575,7 +640,7 @@ def run(repo, rep, tier):
         if case is None:
             raise AnalysisError('%s.to_wbem_uri: case() vanished' % cls.name)
         r5.sites += 1
-        ok = _case_folds_exactly_for_canonical(case)
+        ok = _case_folds_exactly_for_canonical(case, f)
         r5.ob(ok, cls.name + ':case', {'case': norm(case.node, 200)})
         if not ok:
             rep.finding(r5, case.qualname, 'case()', 'case-shape', OBJ,
@@ -592,12 +657,14 @@ def run(repo, rep, tier):
             rep.finding(r5, cs.qualname, 'case_sorted()', 'sort-shape', OBJ,
                         cs.node.lineno, 'keys are not sorted after case '
                         'folding')
-    loops = [n for n in walk_no_nested(f.node) if isinstance(n, ast.For) and
-             'keybindings' in norm(n.iter)]
-    ok = len(loops) == 1 and isinstance(loops[0].iter, ast.Call) and \
+    from ..flow import value_of as _vo4
+    loops = [(n, _vo4(f, n.iter)) for n in walk_no_nested(f.node)
+             if isinstance(n, ast.For)]
+    loops = [(n, it) for n, it in loops if 'keybindings' in norm(it)]
+    ok = len(loops) == 1 and isinstance(loops[0][1], ast.Call) and \
         ((cs is not None and
-          dotted(loops[0].iter.func) == 'case_sorted') or
-         _sorted_after_folding(loops[0].iter, ()))
+          dotted(loops[0][1].func) == 'case_sorted') or
+         _sorted_after_folding(loops[0][1], ()))
     r4.ob(ok, 'keys-via-case_sorted')
     if not ok:
         rep.finding(r4, f.qualname, 'for key in ...', 'keys-order', OBJ,
@@ -871,16 +938,24 @@ def real_key_text_rule(repo, rep):
                     isinstance(t.args[0], ast.Name) and \
                     'CIMFloat' in norm(t.args[1]):
                 real = t.args[0].id
-        if real is None or not (isinstance(st, ast.Expr) and
-                                isinstance(st.value, ast.Call) and
-                                isinstance(st.value.func, ast.Attribute) and
-                                st.value.func.attr in ('append', 'extend')
-                                and st.value.args):
+        if real is None:
+            continue
+        if isinstance(st, ast.Expr) and isinstance(st.value, ast.Call) and \
+                isinstance(st.value.func, ast.Attribute) and \
+                st.value.func.attr in ('append', 'extend') and st.value.args:
+            printed = st.value.args[0]
+        elif isinstance(st, ast.Assign) and len(st.targets) == 1 and \
+                isinstance(st.targets[0], ast.Name) and any(
+                    isinstance(x, ast.Name) and x.id == real
+                    for x in ast.walk(st.value)):
+            # the text is put into a local that is appended later
+            printed = st.value
+        else:
             continue
         n += 1
         r8.sites += 1
         it = realtext._Interp({real}, 17)
-        v = it.ev(st.value.args[0])
+        v = it.ev(printed)
         if v is None:
             r8.undecided.append('to_wbem_uri: %s' % norm(st, 50))
             continue
